@@ -142,17 +142,12 @@ __CPROVER_ensures((BT_HS_ENTERED && xv_hs_ret >= 1 && !BT_VERDICT_OK(s)) ==> (BT
 __CPROVER_ensures((BT_HS_ENTERED && xv_hs_ret >= 1 && BT_VERDICT_OK(s)) ==> BT_STATE(s) == conn_state_ready)
 /* PO[C09] try_finish_tls_handshake.one_step_own_role: only a handshaking socket enters OpenSSL: one SSL_connect (tls.client) or SSL_accept (server role) on the socket's own SSL; otherwise nothing at all happens */
 __CPROVER_ensures(__CPROVER_old(BT_STATE(s)) == conn_state_tls_handshaking \
-        ? (xv_hs_calls == __CPROVER_old(xv_hs_calls) + 1 && xv_hs_ssl == BT(s)->conn.ssl && xv_hs_connect == BT(s)->tls_client) \
+        ? (xv_hs_calls == __CPROVER_old(xv_hs_calls) + 1 && xv_hs_ssl == BT(s)->conn.ssl && xv_hs_connect == (BT(s)->tls_client != 0)) \
         : (xv_hs_calls == __CPROVER_old(xv_hs_calls) && BT_STATE(s) == __CPROVER_old(BT_STATE(s)) && BT(s)->conn.badness_reason == __CPROVER_old(BT(s)->conn.badness_reason) && \
            BT(s)->conn.ssl_condition == __CPROVER_old(BT(s)->conn.ssl_condition) && BT(s)->conn.ssl_wants == __CPROVER_old(BT(s)->conn.ssl_wants)))
-/* PO[C06] try_finish_tls_handshake.failure_mapping: a failed step: WANT_* => still handshaking (ssl_condition 0, ssl_wants says what to wait for), close => closed, protocol error => bad(EPROTO), transport errno e => bad(e) */
-__CPROVER_ensures((BT_HS_ENTERED && xv_hs_ret < 1) ==> ( \
-    (xv_ssl_err == SSL_ERROR_WANT_READ ==> (BT_STATE(s) == conn_state_tls_handshaking && BT(s)->conn.ssl_condition == 0 && BT(s)->conn.ssl_wants == XCM_SO_RECEIVABLE)) && \
-    (xv_ssl_err == SSL_ERROR_WANT_WRITE ==> (BT_STATE(s) == conn_state_tls_handshaking && BT(s)->conn.ssl_condition == 0 && BT(s)->conn.ssl_wants == XCM_SO_SENDABLE)) && \
-    (xv_ssl_err == SSL_ERROR_ZERO_RETURN ==> BT_STATE(s) == conn_state_closed) && \
-    ((xv_ssl_err == SSL_ERROR_SSL || (xv_ssl_err == SSL_ERROR_SYSCALL && xv_err_queue != 0)) ==> BT_EV_BAD(s, EPROTO)) && \
-    ((xv_ssl_err == SSL_ERROR_SYSCALL && xv_err_queue == 0) ==> (BT_STATE(s) == conn_state_tls_handshaking || BT_STATE(s) == conn_state_closed || \
-                                                                (BT_STATE(s) == conn_state_bad && BT(s)->conn.badness_reason != EPROTO)))))
+/* PO[C06] try_finish_tls_handshake.failure_mapping: a failed step: WANT_* => still handshaking (ssl_condition 0, ssl_wants says what to wait for), close_notify/EOF/EPIPE => closed, protocol error => bad(EPROTO), transport errno e => bad(e)
+ */
+__CPROVER_ensures((BT_HS_ENTERED && xv_hs_ret < 1) ==> BT_EV_MAP(s, 0, xv_ssl_errno))
 /* PO[C06] try_finish_tls_handshake.terminal_sticks: closed and bad are absorbing, the stored errno is immutable */
 __CPROVER_ensures((__CPROVER_old(BT_STATE(s)) == conn_state_closed || __CPROVER_old(BT_STATE(s)) == conn_state_bad) ==> \
                   (BT_STATE(s) == __CPROVER_old(BT_STATE(s)) && BT(s)->conn.badness_reason == __CPROVER_old(BT(s)->conn.badness_reason)))
